@@ -668,6 +668,9 @@ func c18RunSrvCase(r *c18PeerRun) {
 				us, _ = sw.conn.OpenUniStream()
 			}
 			time.Sleep(time.Duration(pc.B) * time.Millisecond)
+			if fb.Where == "control-after" {
+				time.Sleep(50 * time.Millisecond) // SETTINGS must have been delivered: a reset may discard undelivered data
+			}
 			if len(bad) > 0 && us != nil {
 				for _, p := range c18Cuts(bad, pc.B) {
 					us.Write(p)
